@@ -123,6 +123,20 @@ if __name__ == '__main__':
         for d in sorted(os.listdir(os.path.join(VERIF, 'seeded'))):
             if len(sys.argv) > 2 and not any(d.startswith(x) for x in sys.argv[2:]):
                 continue
+            if not os.path.isdir(os.path.join(VERIF, 'seeded', d)):
+                continue
             meta = json.load(open(os.path.join(VERIF, 'seeded', d, 'meta.json')))
             checks = [meta['property']] + [c for c in meta.get('detected_by', {}) if c != meta['property']]
             do_eval(d, checks)
+    elif sys.argv[1] == 'evalpending':
+        # seeds never evaluated, or whose last evaluation was a harness error (exit 2/3)
+        for d in sorted(os.listdir(os.path.join(VERIF, 'seeded'))):
+            if not os.path.isdir(os.path.join(VERIF, 'seeded', d)):
+                continue
+            meta = json.load(open(os.path.join(VERIF, 'seeded', d, 'meta.json')))
+            det = meta.get('detected_by', {})
+            checks = [c for c, v in det.items() if v.get('exit') not in (0, 1)]
+            if meta['property'] not in det:
+                checks.insert(0, meta['property'])
+            if checks:
+                do_eval(d, checks)
